@@ -202,6 +202,10 @@ def order_taint(prog: Program, model: Optional[Model], fi: FuncInfo) -> List[Tup
             a, b = set_kind(e.left), set_kind(e.right)
             if a is not None or b is not None:
                 return a if a not in (None, "unknown") else (b or "unknown")
+            # dict views support set algebra and yield a set of keys (user keys: typically str)
+            for side in (e.left, e.right):
+                if isinstance(side, ast.Call) and isinstance(side.func, ast.Attribute) and side.func.attr in ("keys", "items") and not side.args:
+                    return "key"
         if isinstance(e, ast.Call) and isinstance(e.func, ast.Attribute) and e.func.attr in SET_METHODS:
             return set_kind(e.func.value)
         if isinstance(e, ast.Name) and e.id in tainted:
@@ -235,7 +239,7 @@ def order_taint(prog: Program, model: Optional[Model], fi: FuncInfo) -> List[Tup
         ordinal[sink] = ordinal.get(sink, 0) + 1
         construct = f"{fi.qualname}: set -> {sink} #{ordinal[sink]}"
         k = k if k else "unknown"
-        if k in ("str", "bytes", "object"):
+        if k in ("str", "bytes", "object", "key"):
             out.append(("VIOLATED", node, construct,
                         f"`{ast.unparse(src)[:90]}`: a set of {k} elements (hash-randomised iteration order) reaches "
                         f"the order-sensitive consumer `{sink}`"))
@@ -431,7 +435,7 @@ def check(run: Run, prog: Program, model: Model, tier: str) -> None:
                         run.violated("SEEDED-ENTROPY", construct, site,
                                      f"draw from `{name}`, which is not the generator set_seed seeds ({seeded})",
                                      witness="values drawn from it are not a function of the seed")
-    run.floor("SEEDED-ENTROPY", 5)
+    run.floor("SEEDED-ENTROPY", 3)
     run.floor("EXEMPT-ENTROPY", 3)
 
     # (3) order taint
@@ -447,6 +451,21 @@ def check(run: Run, prog: Program, model: Model, tier: str) -> None:
                 run.note("ORDER-TAINT", construct, site, detail)
             else:
                 run.undecided("ORDER-TAINT", construct, site, detail)
+    # the generator iterates key tables / element lists in the order the declaration layer stored them: a set-ordered
+    # construction there is just as visible.  Scope: everything that builds schemas (declaration, substitution, utils).
+    extra_scope = [f for q, f in prog.functions.items() if q.startswith(("d42.declaration.", "d42.substitution._substitutor", "d42.utils."))
+                   and f.qualname not in {x.qualname for x in funcs}]
+    for fi in extra_scope:
+        for status, node, construct, detail in order_taint(prog, model, fi):
+            site = f"{fi.module.path}:{getattr(node, 'lineno', 0)}"
+            if status == "VIOLATED":
+                run.violated("ORDER-TAINT", construct, site, detail + " (the stored order is the order generation draws in)",
+                             witness="same seed, two PYTHONHASHSEED values: members are generated in a different order, so every value shifts")
+            elif status == "NOTE":
+                run.note("ORDER-TAINT", construct, site, detail)
+            else:
+                run.undecided("ORDER-TAINT", construct, site, detail)
+    run.analysed["schema_building_functions"] = len(extra_scope)
     # id()/hash() reaching output is covered by the entropy table (builtins.id / builtins.hash)
 
     # (4) hidden state
@@ -622,4 +641,9 @@ MUTANTS = [
     {"name": "neutral: membership test on a set of chars", "expect": "SILENT",
      "edits": [(G, "        if schema.props.alphabet is not Nil:\n            alphabet = schema.props.alphabet\n",
                 "        if schema.props.alphabet is not Nil:\n            alphabet = schema.props.alphabet\n            assert len(set(alphabet)) >= 0\n")]},
+]
+
+MUTANTS += [
+    {"name": "merged key table ordered through a set of keys", "rule": "ORDER-TAINT",
+     "edits": [("d42/declaration/types/_dict_schema.py", "        merged_keys = {**self_keys, **other_keys}", "        merged_keys = {key: self_keys[key] for key in self_keys.keys() - other_keys.keys()}\n        merged_keys.update(other_keys)")]},
 ]
